@@ -426,8 +426,10 @@ class Scores:
         # Example: We want threshold at 70% TPR. If easy_pos_ratio=60%, then we want
         # the threshold at 25% TPR on the remaining 40% hard positives, since
         # 70% - 60% = 10% is 25% of the remaining 40%
+        all_pos = np.asarray(tpr) >= 1.0  # Rescaling below must not round this away
         tpr = np.maximum(np.asarray(tpr) - self.easy_pos_ratio, 0.0)
         tpr = np.minimum(tpr / self.hard_pos_ratio, 1.0)
+        tpr = np.maximum(tpr, all_pos * 1.0)
         return self._threshold_at_ratio(self.pos, tpr, False, BinaryLabel.pos, method)
 
     def threshold_at_fnr(self, fnr, *, method: str = "linear"):
@@ -462,8 +464,10 @@ class Scores:
         if len(self.neg) == 0:
             raise ValueError("Cannot set threshold at TNR with no negative values.")
         # See explanation in threshold_at_tpr()
+        all_neg = np.asarray(tnr) >= 1.0  # Rescaling below must not round this away
         tnr = np.maximum(np.asarray(tnr) - self.easy_neg_ratio, 0.0)
         tnr = np.minimum(tnr / self.hard_neg_ratio, 1.0)
+        tnr = np.maximum(tnr, all_neg * 1.0)
         return self._threshold_at_ratio(self.neg, tnr, True, BinaryLabel.neg, method)
 
     def threshold_at_fpr(self, fpr, *, method: str = "linear"):
@@ -613,6 +617,10 @@ class Scores:
     ):
         scores = scores.astype(float)  # Otherwise we can get problems with nextafter
 
+        # Targets at or beyond the ends of the scale, before any continuity shift.
+        at_min = target_ratio <= 0.0
+        at_max = target_ratio >= 1.0
+
         if not left_continuous:
             min_ratio = 1.0 / len(scores)
             target_ratio = target_ratio - min_ratio
@@ -637,6 +645,8 @@ class Scores:
         # Special cases of TPR <= 0. and TPR >= 1.
         threshold[target_ratio <= 0.0] = np.nextafter(scores[0], -np.inf)
         threshold[target_ratio >= 1.0] = np.nextafter(scores[-1], np.inf)
+        threshold[at_min] = np.nextafter(scores[0], -np.inf)
+        threshold[at_max] = np.nextafter(scores[-1], np.inf)
 
         return threshold
 
